@@ -144,7 +144,7 @@ theorem markedRoot_isNil (hlen : ∀ x, (H x).length = 32) (t : WT) {ts : PT} {m
     (hu : Uniform m ts) (hok : PTOK ts) (hlk : ∀ k ∈ keys, k.length = m) {n' : WN}
     (hm : Mark.markedRoot t keys = some n') : n'.isNil = false := by
   have hne := RepMore.noEmp_of_proper hp
-  obtain ⟨root, hl, r1, r2, r3, _, _⟩ := Mark.loadRoot_ok hlen t hrep hp hne hu hok
+  obtain ⟨root, hl, r1, r2, r3, _, _⟩ := Mark.loadRoot_ok hlen t hdb hrep hp hne hu hok
   obtain ⟨g1, _, _, _, _, g6, _⟩ := Mark.markAll_ok (s := t.store) hlen hu hok keys root hlk r1 r2 r3
   have hmr : Mark.markedRoot t keys = some (markAll true t.store root keys).node := by
     simp only [Mark.markedRoot, hl, hdb, g1]
